@@ -106,8 +106,8 @@ def check_call(ident, args, ufns=None, call=None):
         try:
             if not specrt.eval_clause(cl, env2, old_env):
                 out.failed.append(cl)
-        except specrt.Unevaluable:
-            continue
+        except (specrt.Unevaluable, NameError):
+            continue          # (a NameError is a gap in the run-time vocabulary, not a property failure)
         except Exception as e:
             out.failed.append(cl + '   [evaluation raised %s: %s]' % (type(e).__name__, e))
     out.status = 'violated' if out.failed else 'ok'
